@@ -26,6 +26,12 @@ run_demo() { # prints PASS/FAIL
     find "$wt/seedwork/demo-$NAME" -name go.mod -exec sed -i "s#=> /tmp/wt-[A-Za-z0-9-]*#=> $wt#" {} \;
     find "$wt/seedwork/demo-$NAME" -name 'run.sh' -exec sed -i "s#/tmp/wt-C[0-9]*#$wt#g; s#/tmp/seed-out/$NAME/demo#$wt/seedwork/demo-$NAME#g" {} \;
     (cd "$wt/seedwork/demo-$NAME" && timeout 600 sh run.sh) > "/tmp/seed-results/$NAME.demo.$2.log" 2>&1 && echo PASS || echo FAIL
+  elif [ -d "$SEED/demo/gen" ] && [ -d "$SEED/demo/run" ] && [ -f "$SEED/demo/go.mod" ]; then
+    # compiler driver + runner: go run ./gen <pkg> && go run ./run
+    rm -rf "$wt/seedwork/demo-$NAME"; mkdir -p "$wt/seedwork"; cp -r "$SEED/demo" "$wt/seedwork/demo-$NAME"
+    find "$wt/seedwork/demo-$NAME" -name go.mod -exec sed -i "s#=> /tmp/wt-[A-Za-z0-9-]*#=> $wt#" {} \;
+    pkgdir=$(cd "$wt/seedwork/demo-$NAME" && ls -d */ | grep -v -E '^(gen|run)/' | head -1 | tr -d /)
+    (cd "$wt/seedwork/demo-$NAME" && find "$pkgdir" -name '*.go' ! -name '*_co.go' ! -name '*_co_test.go' -delete; timeout 900 sh -c "go run ./gen $pkgdir && go run ./run") > "/tmp/seed-results/$NAME.demo.$2.log" 2>&1 && echo PASS || echo FAIL
   elif [ -f "$SEED/demo/main.go" ] && [ -f "$SEED/demo/go.mod" ]; then
     # a self-contained demo program: go run . (C15) or go build && ./demo check (C16)
     rm -rf "$wt/seedwork/demo-$NAME"; mkdir -p "$wt/seedwork"; cp -r "$SEED/demo" "$wt/seedwork/demo-$NAME"
